@@ -30,6 +30,9 @@ type Q struct {
 	CD    bool        `json:"cd"`
 	DO    bool        `json:"do"`
 	ID    uint16      `json:"id"`
+	// Trailer: the query carries one more additional record behind its OPT (as a signed query does); it is no part
+	// of the question
+	Trailer bool `json:"trailer"`
 }
 
 func (q Q) String() string {
@@ -58,6 +61,9 @@ func (q Q) ctx() *query_context.Context {
 	if q.DO {
 		// The cache keys on the forwarded query; DO lives in its own (fresh) OPT.
 		qc.QOpt().SetDo(true)
+	}
+	if q.Trailer {
+		qc.Q().Extra = append(qc.Q().Extra, &dns.TXT{Hdr: dns.RR_Header{Name: "key.c04.test.", Rrtype: dns.TypeTXT, Class: dns.ClassINET}, Txt: []string{"trailer"}})
 	}
 	return qc
 }
@@ -294,13 +300,14 @@ type Case struct {
 
 func genQ(t *rapid.T, l string) Q {
 	return Q{
-		Name:  dnsgen.GenName(t, l+"name"),
-		Type:  genU16(t, l+"type"),
-		Class: genClass(t, l+"class"),
-		AD:    rapid.Bool().Draw(t, l+"ad"),
-		CD:    rapid.Bool().Draw(t, l+"cd"),
-		DO:    rapid.Bool().Draw(t, l+"do"),
-		ID:    uint16(rapid.IntRange(0, 65534).Draw(t, l+"id")),
+		Name:    dnsgen.GenName(t, l+"name"),
+		Type:    genU16(t, l+"type"),
+		Class:   genClass(t, l+"class"),
+		AD:      rapid.Bool().Draw(t, l+"ad"),
+		CD:      rapid.Bool().Draw(t, l+"cd"),
+		DO:      rapid.Bool().Draw(t, l+"do"),
+		ID:      uint16(rapid.IntRange(0, 65534).Draw(t, l+"id")),
+		Trailer: rapid.IntRange(0, 3).Draw(t, l+"trailer") == 0,
 	}
 }
 
